@@ -72,6 +72,12 @@ CHECKS = {
         text='Theorems at the reals about the model: the accumulation loop equals the sum over rows of (0 if S <= limit else count / 10^(a S + b)); additive over concatenation, proportional to the counts, permutation invariant, non-negative, zero for rows at or below the limit (boundary included), non-decreasing when a stress level is raised on a falling curve; the naive model is the sum of C/F; the closed-form (a, b) satisfies the normal equations and interpolates two points exactly. The model is evaluated at Float and compared with minerDamageModelClassic/Naive and SnCurveFitter.getN (1e-8 / 1e-9), and the consequences are evaluated on the implementation.',
         note='Trusted: Lean kernel + standard axioms + Mathlib; hand-written model FF.Miner tied by tolerance correspondence at Float; np.polyfit trusted to return the least-squares line (compared with the closed form on every case); np.log10 / np.power as libm; real arithmetic stands for binary64.',
         ref='§5 C08'),
+    'C20': dict(
+        engine='formula',
+        technique='Lean 4 proof: kernel evaluation of the moment conditions on the weight tables REGENERATED from the source; polynomial exactness from the moment conditions (Taylor expansion, Mathlib); Vandermonde inverse for the general weights; exact rational solve in the Lean driver compared with the implementation',
+        text='Theorems: every hard-coded table of derivative() (extracted from the AST on every run) satisfies sum w_k k^j = n! [j = n] for j < m (decide +kernel); for any weights meeting the moment conditions the stencil sum of every real polynomial of degree < m equals dx^n times its n-th derivative at every point and step; the general weights n! (V^-1)_n of centralDiffWeights meet the moment conditions for any distinct nodes, hence are exact too. centralDiffWeights is compared with an exact rational solution computed (and self-checked) in Lean; derivative / gradient / hessianMatrix are evaluated on random polynomials and quadratics, gramSchmidOrth on random full-rank matrices (orthonormality, first column, J A = B). Gradient/Hessian and Gram-Schmidt theorems: see the evidence for what is proved vs tested.',
+        note='Trusted: Lean kernel + standard axioms + Mathlib; the table extractor in harness/translate.py; scipy.linalg.inv and numpy.linalg are external (results compared, not proved); rounding: comparisons at 1e-9 relative on dyadic points and steps.',
+        ref='§5 C20'),
 }
 
 NOT_YET = {}
